@@ -44,7 +44,7 @@ def generate(rng, tier):
             nans = [i for i in range(size) if rng.random() < 0.25]
             if rng.random() < 0.5 and 0 not in nans:
                 nans.append(0)
-            if rng.random() < 0.08:
+            if rng.random() < 0.2:
                 nans = list(range(size))          # every element NaN: nothing contributes anywhere
         yield {"shape": shape, "bins": bins, "op": op, "mask": mk,
                "bits": [rng.random() < 0.4 for _ in range(size)] if mk == "random" else None,
